@@ -94,6 +94,7 @@ fn main() {
             let mut rep = Report::new("C12", tier, "model_checking", "sim");
             rep.rule = "stateless enumeration: listener bind kind (wildcard / localhost) x three connectors (two remote, one on the listener's own host through its address or 127.0.0.1) x connector start / cancel rounds x round at which accepting starts x listener drop (+ re-bind) x every delivery order of the SYNs held on the link x extra connects to a closed port and an unknown address; nonce pairing, mirrored addresses, accept order = arrival order, refusal instead of hanging, stream counts back to zero".into();
             run_dfs(&mut rep, "connect-accept", 0, wall, move |ch| c12::scenario(ch, thorough));
+            run_dfs(&mut rep, "holds-and-partitions-around-the-handshake", 0, wall, move |ch| c12::partition_scenario(ch, thorough));
             rep.finish();
         }
         "C15" => {
@@ -248,7 +249,13 @@ fn replay(path: &str) {
         "C08" => flow::c08_scenario(&mut ch, thorough),
         "C03" => flow::c03_scenario(&mut ch, thorough),
         "C14" => flow::c14_scenario(&mut ch, thorough),
-        "C12" => c12::scenario(&mut ch, thorough),
+        "C12" => {
+            if v["scenario"].as_str().map(|s| s.starts_with("c12-partition")).unwrap_or(false) {
+                c12::partition_scenario(&mut ch, thorough)
+            } else {
+                c12::scenario(&mut ch, thorough)
+            }
+        }
         "C01" => {
             // in-process twin, then the same scenario in a fresh process
             let e = c01::scenario(&mut ch, thorough, false);
